@@ -9,6 +9,7 @@ __all__ = [
 ]
 
 import logging
+import struct
 from collections.abc import Sequence
 
 import onnx_ir as ir
@@ -76,12 +77,17 @@ class CommonSubexpressionEliminationPass(ir.passes.InPlacePass):
                 # The attribute value could be directly taken from the original
                 # protobuf, so we need to make a copy of it.
                 value = v.value
-                if v.type in (
+                if v.type is ir.AttributeType.FLOAT:
+                    # Compare floats by bit pattern: 0.0 == -0.0 in Python, but the
+                    # two constants are different values (1/0.0 != 1/-0.0).
+                    value = struct.pack("<d", value)
+                elif v.type is ir.AttributeType.FLOATS:
+                    value = tuple(struct.pack("<d", x) for x in value)
+                elif v.type in (
                     ir.AttributeType.INTS,
-                    ir.AttributeType.FLOATS,
                     ir.AttributeType.STRINGS,
                 ):
-                    # For INT, FLOAT and STRING attributes, we convert them to tuples
+                    # For INT and STRING attributes, we convert them to tuples
                     # to ensure they are hashable.
                     value = tuple(value)
                 elif v.type is ir.AttributeType.TENSOR:
@@ -92,7 +98,8 @@ class CommonSubexpressionEliminationPass(ir.passes.InPlacePass):
                     np_value = value.numpy()
 
                     value = (np_value.shape, str(np_value.dtype), np_value.tobytes())
-                attributes[k] = value
+                # The attribute type is part of the key: INT 1 and FLOAT 1.0 are different attributes
+                attributes[k] = (v.type, value)
 
             if control_flow_op:
                 # If the node is a control flow op, we skip it.
